@@ -72,6 +72,10 @@ fn main() {
             let tier = arg(&args, "--tier").unwrap_or_else(|| "quick".into());
             batch::selfcheck(e, &prop, &tier, base, n)
         }
+        "primsweep" => {
+            let from = arg(&args, "--from").and_then(|s| s.parse().ok()).unwrap_or(0);
+            gluon_sim::props::c06::primsweep(from)
+        }
         "one" => {
             // run one index in-process, verbosely
             let prop = arg(&args, "--prop").expect("--prop");
